@@ -488,6 +488,11 @@ func stdIntrinsics(e *Engine) map[string]intrinsic {
 			}
 			return tupleOf(FP64(f), iface{})
 		}
+		if ss, ok := args[0].(*SymStr); ok && ss.flt != nil {
+			// shortest round-trip rendering: ParseFloat(FormatFloat(x)) == x (strconv doc)
+			p.eng.noteStub("strconv round trip ParseFloat(FormatFloat(x))")
+			return tupleOf(ss.flt, iface{})
+		}
 		// Symbolic subject: syntactic model. Acceptance is decided exactly (for inputs
 		// without digit-separating underscores) by matching Go's floating-point
 		// literal syntax; the parsed value is an unconstrained fresh float.
@@ -506,6 +511,14 @@ func stdIntrinsics(e *Engine) map[string]intrinsic {
 		f := args[0].(*Term)
 		if f.IsConst() && allConcreteTerms(args[1:]) {
 			return strconv.FormatFloat(f.FVal(), byte(args[1].(*Term).c), int(args[2].(*Term).SVal()), int(args[3].(*Term).SVal()))
+		}
+		if allConcreteTerms(args[1:]) && args[2].(*Term).SVal() == -1 && args[3].(*Term).SVal() == 64 {
+			switch byte(args[1].(*Term).c) {
+			case 'f':
+				return &SymStr{b: make([]*Term, 8), taint: "FormatFloat 'f' of a symbolic float64", flt: f, fltF: true}
+			case 'g':
+				return &SymStr{b: make([]*Term, 8), taint: "FormatFloat 'g' of a symbolic float64", flt: f}
+			}
 		}
 		panic(unsupported{"strconv.FormatFloat on symbolic float"})
 	}
